@@ -127,12 +127,20 @@ func runCmd(dir string, name string, args ...string) string {
 
 func (ld *Loaded) asmFuncsOrNil() map[string]*AsmFunc { return ld.asm }
 
+// asmPtr: a register holding a Go pointer plus a byte displacement (pointer arithmetic by immediates).
+type asmPtr struct {
+	p   Pointer
+	off int64
+}
+
 type asmState struct {
 	c      *Ctx
 	st     *State
 	regs   map[string]Value
 	stack  map[int64]Value
 	sp     int64
+	cmpA, cmpB *Term // operands of the last CMPQ (for signed/unsigned conditional jumps on concrete values)
+	argSize    map[int64]int64
 	cf     *Term // carry flag as a 1-bit vector (nil: undefined)
 	zf     *Term // zero flag as a Bool (nil: undefined)
 	fn     *ssa.Function
@@ -236,6 +244,95 @@ func (a *asmState) reg(name string) Value {
 	return v
 }
 
+// memAddr resolves a memory operand to a stack offset or to the 8-byte leaf at (+extra bytes).
+func (a *asmState) memAddr(op string, extra int64) (isStack bool, soff int64, leaf Pointer, ok bool) {
+	m := memRe.FindStringSubmatch(op)
+	if m == nil {
+		return false, 0, Pointer{}, false
+	}
+	off := int64(0)
+	if m[1] != "" {
+		var ok2 bool
+		if off, ok2 = parseImm(m[1]); !ok2 {
+			a.fail("offset %q", m[1])
+		}
+	}
+	off += extra
+	if m[2] == "SP" {
+		return true, a.sp + off, Pointer{}, true
+	}
+	switch b := a.reg(m[2]).(type) {
+	case Pointer:
+		return false, 0, a.leafAt(b, off), true
+	case asmPtr:
+		return false, 0, a.leafAt(b.p, b.off+off), true
+	}
+	a.fail("memory operand through a register that does not hold a pointer")
+	return
+}
+
+func isXmm(op string) bool {
+	if len(op) < 2 || op[0] != 'X' {
+		return false
+	}
+	_, err := strconv.Atoi(op[1:])
+	return err == nil
+}
+
+// read128 / write128: XMM registers and 16-byte memory operands (two adjacent 8-byte words, little endian).
+func (a *asmState) read128(op string) *Term {
+	if isXmm(op) {
+		if v, ok := a.regs[op].(*Term); ok {
+			return v
+		}
+		v := Var(a.c.freshName("reg_"+op), BV(128)) // (e.g. the PXOR X, X zeroing idiom)
+		a.regs[op] = v
+		return v
+	}
+	lo := a.readMem64(op, 0)
+	hi := a.readMem64(op, 8)
+	return Concat(hi, lo)
+}
+
+func (a *asmState) readMem64(op string, extra int64) *Term {
+	isStack, soff, leaf, ok := a.memAddr(op, extra)
+	if !ok {
+		a.fail("unsupported 128-bit operand %q", op)
+	}
+	if isStack {
+		v, ok := a.stack[soff].(*Term)
+		if !ok {
+			a.fail("read of an unwritten stack slot %d", soff)
+		}
+		return v
+	}
+	return termOf(a.st.load(leaf))
+}
+
+func (a *asmState) write128(op string, v *Term) {
+	if isXmm(op) {
+		a.regs[op] = v
+		return
+	}
+	for k, part := range []*Term{Extract(v, 63, 0), Extract(v, 127, 64)} {
+		isStack, soff, leaf, ok := a.memAddr(op, int64(8*k))
+		if !ok {
+			a.fail("unsupported 128-bit destination %q", op)
+		}
+		if isStack {
+			a.stack[soff] = part
+		} else {
+			a.st.store(leaf, part)
+		}
+	}
+}
+
+func lanes32(v *Term) [4]*Term {
+	return [4]*Term{Extract(v, 31, 0), Extract(v, 63, 32), Extract(v, 95, 64), Extract(v, 127, 96)}
+}
+
+func fromLanes32(l [4]*Term) *Term { return Concat(Concat(l[3], l[2]), Concat(l[1], l[0])) }
+
 // read returns the 64-bit value of an operand.
 func (a *asmState) read(op string) Value {
 	if strings.HasPrefix(op, "$") {
@@ -245,26 +342,15 @@ func (a *asmState) read(op string) Value {
 		}
 		return BVI(v, 64)
 	}
-	if m := memRe.FindStringSubmatch(op); m != nil {
-		off := int64(0)
-		if m[1] != "" {
-			var ok bool
-			if off, ok = parseImm(m[1]); !ok {
-				a.fail("offset %q", m[1])
-			}
-		}
-		if m[2] == "SP" {
-			v, ok := a.stack[a.sp+off]
+	if isStack, soff, leaf, ok := a.memAddr(op, 0); ok {
+		if isStack {
+			v, ok := a.stack[soff]
 			if !ok {
-				a.fail("read of an unwritten stack slot %d", a.sp+off)
+				a.fail("read of an unwritten stack slot %d", soff)
 			}
 			return v
 		}
-		base, ok := a.reg(m[2]).(Pointer)
-		if !ok {
-			a.fail("memory operand through a register that does not hold a pointer")
-		}
-		return a.st.load(a.leafAt(base, off))
+		return a.st.load(leaf)
 	}
 	if strings.ContainsAny(op, "(:") {
 		a.fail("unsupported operand %q", op)
@@ -282,20 +368,12 @@ func (a *asmState) readT(op string) *Term {
 }
 
 func (a *asmState) write(op string, v Value) {
-	if m := memRe.FindStringSubmatch(op); m != nil {
-		off := int64(0)
-		if m[1] != "" {
-			off, _ = parseImm(m[1])
+	if isStack, soff, leaf, ok := a.memAddr(op, 0); ok {
+		if isStack {
+			a.stack[soff] = v
+		} else {
+			a.st.store(leaf, v)
 		}
-		if m[2] == "SP" {
-			a.stack[a.sp+off] = v
-			return
-		}
-		base, ok := a.reg(m[2]).(Pointer)
-		if !ok {
-			a.fail("memory operand through a register that does not hold a pointer")
-		}
-		a.st.store(a.leafAt(base, off), v)
 		return
 	}
 	if strings.ContainsAny(op, "($:") {
@@ -305,7 +383,7 @@ func (a *asmState) write(op string, v Value) {
 }
 
 func (c *Ctx) execAsm(af *AsmFunc, fn *ssa.Function, args []Value, st *State, site ssa.Instruction) {
-	a := &asmState{c: c, st: st, regs: map[string]Value{}, stack: map[int64]Value{}, fn: fn}
+	a := &asmState{c: c, st: st, regs: map[string]Value{}, stack: map[int64]Value{}, fn: fn, argSize: map[int64]int64{}}
 	c.encoded[fn.String()+" [asm]"] = len(af.insts)
 	// ABI0 argument area: return address at 0(SP), arguments from 8(SP)
 	off := int64(8)
@@ -313,10 +391,11 @@ func (c *Ctx) execAsm(af *AsmFunc, fn *ssa.Function, args []Value, st *State, si
 		sz := gcSizes.Sizeof(p.Type())
 		al := gcSizes.Alignof(p.Type())
 		off = (off + al - 1) / al * al
-		if sz != 8 {
-			fail("asm %s: parameter %s of size %d (only 8-byte parameters are modelled)", fn.Name(), p.Name(), sz)
+		if sz != 8 && sz != 1 {
+			fail("asm %s: parameter %s of size %d (only 8-byte and 1-byte parameters are modelled)", fn.Name(), p.Name(), sz)
 		}
 		a.stack[off] = args[i]
+		a.argSize[off] = sz
 		off += sz
 	}
 	if fn.Signature.Results().Len() != 0 {
@@ -375,7 +454,59 @@ func (c *Ctx) execAsm(af *AsmFunc, fn *ssa.Function, args []Value, st *State, si
 				a.write(ar[1], BVI(a.sp, 64)) // frame pointer bookkeeping only
 				break
 			}
+			if isXmm(ar[1]) {
+				a.regs[ar[1]] = Zext(a.readT(ar[0]), 128) // GPR / memory -> low quadword, upper cleared
+				break
+			}
+			if isXmm(ar[0]) {
+				a.write(ar[1], Extract(a.read128(ar[0]), 63, 0))
+				break
+			}
 			a.write(ar[1], a.read(ar[0]))
+		case "MOVZX", "MOVBQZX":
+			// byte-sized parameter, zero extended
+			isStack, soff, _, ok := a.memAddr(ar[0], 0)
+			if !ok || !isStack || a.argSize[soff] != 1 {
+				a.fail("only byte loads of 1-byte parameters are modelled")
+			}
+			a.write(ar[1], Zext(termOf(a.stack[soff]), 64))
+		case "PXOR", "PAND", "POR", "PANDN":
+			x, y := a.read128(ar[0]), a.read128(ar[1])
+			var r *Term
+			switch in.op {
+			case "PXOR":
+				r = BvXor(y, x)
+			case "PAND":
+				r = BvAnd(y, x)
+			case "POR":
+				r = BvOr(y, x)
+			case "PANDN":
+				r = BvAnd(BvNot(y), x)
+			}
+			a.write128(ar[1], r)
+		case "PCMPEQD", "PCMPEQL":
+			x, y := lanes32(a.read128(ar[0])), lanes32(a.read128(ar[1]))
+			var r [4]*Term
+			for k := 0; k < 4; k++ {
+				r[k] = Ite(Eq(x[k], y[k]), BVI(-1, 32), BVI(0, 32))
+			}
+			a.write128(ar[1], fromLanes32(r))
+		case "PSHUFD":
+			imm, ok := parseImm(ar[0])
+			if !ok {
+				a.fail("PSHUFD selector")
+			}
+			x := lanes32(a.read128(ar[1]))
+			var r [4]*Term
+			for k := 0; k < 4; k++ {
+				r[k] = x[(imm>>(2*uint(k)))&3]
+			}
+			a.write128(ar[2], fromLanes32(r))
+		case "PUNPCKLQDQ":
+			x, y := a.read128(ar[0]), a.read128(ar[1])
+			a.write128(ar[1], Concat(Extract(x, 63, 0), Extract(y, 63, 0)))
+		case "MOVDQU", "MOVOU", "MOVDQA", "MOVO":
+			a.write128(ar[1], a.read128(ar[0]))
 		case "MOVL":
 			v, ok := parseImm(ar[0])
 			if !ok || !strings.HasPrefix(ar[0], "$") {
@@ -390,10 +521,44 @@ func (c *Ctx) execAsm(af *AsmFunc, fn *ssa.Function, args []Value, st *State, si
 			o, _ := parseImm(m[1])
 			a.write(ar[1], BVI(a.sp+o, 64))
 		case "CMPQ":
-			// stack-growth check of the prologue (the only comparison in the supported files before a JBE)
-			a.cf, a.zf = nil, nil
+			a.cf, a.zf, a.cmpA, a.cmpB = nil, nil, nil, nil
+			if strings.Contains(ar[1], "(R14)") || strings.Contains(ar[0], "(R14)") {
+				break // stack-growth check of the prologue: compares against the g's stack guard
+			}
+			a.cmpA, a.cmpB = a.readT(ar[0]), a.readT(ar[1])
+		case "JLE", "JLT", "JGE", "JGT", "JHI", "JLO", "JHS":
+			if a.cmpA == nil || !a.cmpA.IsConst() || !a.cmpB.IsConst() {
+				a.fail("conditional jump on a symbolic comparison (loop counters must be concrete)")
+			}
+			x, y := toSigned(a.cmpA.val, 64), toSigned(a.cmpB.val, 64)
+			ux, uy := a.cmpA.val, a.cmpB.val
+			var taken bool
+			switch in.op {
+			case "JLE":
+				taken = x.Cmp(y) <= 0
+			case "JLT":
+				taken = x.Cmp(y) < 0
+			case "JGE":
+				taken = x.Cmp(y) >= 0
+			case "JGT":
+				taken = x.Cmp(y) > 0
+			case "JHI":
+				taken = ux.Cmp(uy) > 0
+			case "JLO":
+				taken = ux.Cmp(uy) < 0
+			case "JHS":
+				taken = ux.Cmp(uy) >= 0
+			}
+			if taken {
+				t, ok := parseImm(ar[0])
+				j, ok2 := af.byPC[t]
+				if !ok || !ok2 {
+					a.fail("jump target %q", ar[0])
+				}
+				next = j
+			}
 		case "JBE", "JLS":
-			if a.cf != nil || a.zf != nil {
+			if a.cf != nil || a.zf != nil || a.cmpA != nil {
 				a.fail("conditional jump on modelled flags")
 			}
 			// prologue: enough stack is assumed (the morestack path re-enters the function)
@@ -415,6 +580,27 @@ func (c *Ctx) execAsm(af *AsmFunc, fn *ssa.Function, args []Value, st *State, si
 					a.sp -= v
 				}
 				break
+			}
+			// pointer + immediate: address arithmetic
+			if v, isImm := parseImm(ar[0]); isImm && strings.HasPrefix(ar[0], "$") && !strings.ContainsAny(ar[1], "(") {
+				switch b := a.reg(ar[1]).(type) {
+				case Pointer:
+					if in.op == "SUBQ" {
+						v = -v
+					}
+					a.regs[ar[1]] = asmPtr{b, v}
+					a.cf, a.zf = nil, nil
+					i = next
+					continue
+				case asmPtr:
+					if in.op == "SUBQ" {
+						v = -v
+					}
+					a.regs[ar[1]] = asmPtr{b.p, b.off + v}
+					a.cf, a.zf = nil, nil
+					i = next
+					continue
+				}
 			}
 			x, y := a.readT(ar[0]), a.readT(ar[1])
 			var s *Term
